@@ -117,7 +117,7 @@ func richDoc(id int, g *docGen) string {
 			`<div contenteditable="true"><table><caption>` + g.words(2) + `</caption><tr><td>a</td><td>b</td></tr><tr><td>c</td><td>d</td></tr></table></div>` + story(1) + "</div>")
 	case 8: // path pager, off-site and odd links
 		body.WriteString("<div>" + story(3) + "</div>" + pagerHTML(g, "path", 4, 3) +
-			`<a href="http://other.example.org/story/view/9">9</a> <a href="mailto:x@example.com">mail</a> <a href="javascript:go(2)">2</a> <a href="">empty</a> <a href="#top">top</a> <a href="http://%zz/">bad</a>`+
+			`<a href="http://other.example.org/story/view/9">9</a> <a href="mailto:x@example.com">mail</a> <a href="javascript:go(2)">2</a> <a href="">empty</a> <a href="#top">top</a> <a href="http://%zz/">bad</a>` +
 			`<a href="http://&#570;/">home 2</a> <a href="http://&#570;/story/view/4">next page 4</a> <a href="http://&#11365;/story/view/5">5</a> <a href="HTTP://EXAMPLE.COM/story/view/6">6</a> <a href="//example.com/story/view/7">7</a>`)
 	case 9: // nearly empty / a single numeric link / javascript placeholders in a pager
 		body.WriteString(g.pick("", "<p></p>", "<div><br></div>", g.words(3), `<a href="/story/view/2">2</a>`,
